@@ -139,10 +139,91 @@ def cond_edges(ig, pred, live=None):
         for m, lab in n.succ:
             if lab is None or lab.cond is None or lab.pol is None:
                 continue
-            atom, pol = cond_atoms(ig.resolve(lab.cond, lab.frame), lab.pol)
+            atom, pol = ig.expand_cond(ig.resolve(lab.cond, lab.frame), lab.pol)
             if pred(atom, pol, lab):
                 out.append((n.id, m.id))
     return out
+
+
+def result_edges(ig, node_ids, polarity, live=None):
+    """edges taken when the boolean result of one of the given event nodes is `polarity`"""
+    def pred(atom, pol, lab):
+        if pol != polarity:
+            return False
+        for o in ig.origins(atom):
+            n = ig.ev_of(o)
+            if n is not None and n.id in node_ids and not o.get("lab"):
+                return True
+        return False
+    return cond_edges(ig, pred, live)
+
+
+def derefs_of(ig, node, var):
+    """does the event at `node` dereference local pointer `var` (frame-tagged 'l' descriptor)?"""
+    ev = node.ev
+    fr = node.frame
+
+    def is_var(d):
+        d = strip_cast(d)
+        return isinstance(d, dict) and d.get("k") == "l" and d.get("id") == var["id"] and fr.id == var["fr"]
+
+    def scan(d):
+        if not isinstance(d, dict):
+            return False
+        for sd in walk(d):
+            if sd.get("k") == "f" and sd.get("arrow") and is_var(sd.get("b")):
+                return True
+            if sd.get("k") == "u" and sd.get("op") == "*" and is_var(sd.get("x")):
+                return True
+            if sd.get("k") == "idx" and is_var(sd.get("b")):
+                return True
+        return False
+    for key in ("this", "lhs", "rhs", "init", "v", "x", "fn"):
+        if key in ev:
+            if key == "x" and ev["e"] == "delete":
+                continue
+            if scan(ev[key]):
+                return True
+    if ev["e"] == "call" and "this" in ev and is_var(ev["this"]) and not ev.get("static"):
+        return True
+    for a in ev.get("args", []):
+        if scan(a):
+            return True
+    return False
+
+
+def defines_var(ig, node, var):
+    ev = node.ev
+    if node.frame.id != var["fr"]:
+        return False
+    if ev["e"] == "decl" and ev.get("var") == var["id"]:
+        return True
+    if ev["e"] == "asg":
+        lhs = strip_cast(ev.get("lhs"))
+        return isinstance(lhs, dict) and lhs.get("k") == "l" and lhs.get("id") == var["id"]
+    return False
+
+
+def use_after_release(ig, release_node, var):
+    """K12: first node on some path after `release_node` that dereferences `var`
+    before `var` is re-defined; None if there is none"""
+    from collections import deque
+    seen = set()
+    dq = deque(m for m, _ in release_node.succ)
+    while dq:
+        n = dq.popleft()
+        if n.id in seen:
+            continue
+        seen.add(n.id)
+        if n.kind == "ev":
+            if derefs_of(ig, n, var):
+                return n
+            if defines_var(ig, n, var):
+                continue
+        for m, _ in n.succ:
+            if m.id not in seen:
+                dq.append(m)
+    return None
 
 
 def cmp_parts(atom):
@@ -185,3 +266,15 @@ def short(fn):
 
 def where(node):
     return node.where
+
+
+def redefined_between(ig, var, a, b):
+    """a definition of local `var` that can execute after node a and before node b
+    (on a path that does not re-execute a); None if the value b sees is the one a saw"""
+    fr = ig.frames[var["fr"]]
+    for n, rhs, how in ig.local_defs(fr, var["id"]):
+        if n.id in (a.id, b.id):
+            continue
+        if ig.path_exists(a, n, avoiding=[a, b]) and ig.path_exists(n, b, avoiding=[a]):
+            return n
+    return None
